@@ -17,6 +17,7 @@ Definition fname_eqb (a b : fname) : bool :=
   | FInit x, FInit y => N.eqb x y
   | FConcat, FConcat => true
   | FLam x, FLam y => N.eqb x y
+  | FPanic, FPanic => true
   | _, _ => false
   end.
 Definition hexpr_eqb (a b : hexpr) : bool :=
@@ -61,6 +62,8 @@ Fixpoint hstmt_eqb (a b : hstmt) {struct a} : bool :=
   | HAssign x e, HAssign x' e' => N.eqb x x' && hexpr_eqb e e'
   | HClosure x f e, HClosure x' f' e' => N.eqb x x' && fname_eqb f f' && hexpr_eqb e e'
   | HStruct x es, HStruct x' es' => N.eqb x x' && list_eqb hexpr_eqb es es'
+  | HDestr e t bs s1 s2 fas, HDestr e' t' bs' s1' s2' fas' =>
+      hexpr_eqb e e' && Nat.eqb t t' && list_eqb optname_eqb bs bs' && go s1 s1' && go s2 s2' && list_eqb fas_eqb fas fas'
   | HUnreachable, HUnreachable => true
   | _, _ => false
   end.
@@ -97,6 +100,9 @@ Fixpoint ins_stmt (s : hstmt) (l : list nat) {struct s} : list nat :=
   | HAssign x e => ins_name x (ins_expr e l)
   | HClosure x _ e => ins_name x (ins_expr e l)
   | HStruct x es => ins_name x (fold_right ins_expr l es)
+  | HDestr e _ bs s1 s2 fas =>
+      fold_right (fun (fa : name * hexpr * hexpr) l => ins_name (fst (fst fa)) (ins_expr (snd (fst fa)) (ins_expr (snd fa) l)))
+                 (go s2 (go s1 (fold_right (fun (b : option name) l => match b with Some x => ins_name x l | None => l end) (ins_expr e l) bs))) fas
   | HUnreachable => l
   end.
 Definition temps_of (ss : list hstmt) (r : hexpr) : list nat := fold_right ins_stmt (ins_expr r []) ss.
@@ -175,7 +181,7 @@ Definition model_of (c : fcase) : list hstmt * hexpr * nat := fst (model_with Pi
 (* ------------------------------------------------------------------ sanity evaluation: SrcSem of the body vs HirSem of the REAL statements *)
 (* kinds of values (from the source types, printed by the dump), used to build environments and worlds whose
    answers have the shape the program expects *)
-Inductive kind := KInt | KBool | KUnit | KStr | KFn | KRef | KStruct (ks : list kind).
+Inductive kind := KInt | KBool | KUnit | KStr | KFn | KRef | KStruct (ks : list kind) | KEnum (vs : list (list kind)).
 
 Fixpoint value_of (k : kind) (h : N) {struct k} : value :=
   match k with
@@ -188,6 +194,21 @@ Fixpoint value_of (k : kind) (h : N) {struct k} : value :=
   | KStruct ks =>
       VStruct ((fix go (l : list kind) (i : N) : list value :=
                   match l with [] => [] | k :: t => value_of k (h * 31 + i)%N :: go t (i + 1)%N end) ks 1%N)
+  | KEnum vs =>
+      match vs with
+      | [] => VRef h
+      | _ =>
+          let t := N.to_nat (h mod N.of_nat (length vs)) in
+          VVariant t ((fix pick (l : list (list kind)) (j : nat) : list value :=
+                         match l with
+                         | [] => []
+                         | ks :: r =>
+                             if Nat.eqb j t then
+                               (fix go (l : list kind) (i : N) : list value :=
+                                  match l with [] => [] | k :: t' => value_of k (h * 37 + i)%N :: go t' (i + 1)%N end) ks 1%N
+                             else pick r (S j)
+                         end) vs O)
+      end
   end.
 
 Fixpoint value_eqb (a b : value) {struct a} : bool :=
@@ -201,6 +222,7 @@ Fixpoint value_eqb (a b : value) {struct a} : bool :=
   | VInt x, VInt y => Z.eqb x y
   | VStr x, VStr y => list_eqb N.eqb x y
   | VStruct xs, VStruct ys => go xs ys
+  | VVariant t xs, VVariant t' ys => Nat.eqb t t' && go xs ys
   | VClo f x, VClo g y => fname_eqb f g && value_eqb x y
   | VRef x, VRef y => N.eqb x y
   | _, _ => false
@@ -298,5 +320,32 @@ Definition w_lam : world := fun tr f vs =>
       end
   | _, _ => None
   end.
+(* `{ let (a, V1(c)) = x; match a { V0(d) -> if let V0(e) = a { d + e + c } else { 0 }, _ -> f1() } }`
+   a = 4, c = 6, d = 8, e = 10 *)
+Definition e_pat : expr :=
+  EBlock (BLetP (PTuple [PVar 4%N; PVariant 1 [PVar 6%N]]) [4%N; 6%N] (EVar 2)
+         (BEndE (EMatch (EVar 4)
+                   (ACons (PVariant 0 [PVar 8%N]) [8%N]
+                          (EIfLet (PVariant 0 [PVar 10%N]) [10%N] (EVar 4)
+                                  (EBlock (BEndE (EBin PLUS (EBin PLUS (EVar 8) (EVar 10)) (EVar 6))))
+                                  (EBlock (BEndE (EInt 0))))
+                   (ACons PWild [] (call0 1) ANil))))).
+Definition v_pat (tag : nat) : value := VStruct [VVariant tag [VInt 3]; VVariant 1 [VInt 9]].
 Definition run_body (ver : version) (w : world) (params : list name) (body : expr) (r : name -> option value) : sres :=
   let '(ss, re, _) := lower_body ver tmp0 params body in run_lowered w ss re r [].
+
+(* ------------------------------------------------------------------ lambdas whose ClosureInit is dropped *)
+(* the numbers of the lambdas whose ClosureInit survives in the statements, in statement order: the check numbers the
+   lambdas of a body provisionally, asks which survive, and pairs those with the real ClosureInit statements (a lambda
+   in a dead operand of && / || is lowered - its synthetic function exists - but its statements are dropped) *)
+Fixpoint closure_ids_s (s : hstmt) : list N :=
+  let fix go (l : list hstmt) : list N := match l with [] => [] | x :: t => closure_ids_s x ++ go t end in
+  match s with
+  | HClosure _ (FLam l) _ => [l]
+  | HIf _ s1 s2 _ => go s1 ++ go s2
+  | HDestr _ _ _ s1 s2 _ => go s1 ++ go s2
+  | _ => []
+  end.
+Definition closure_ids (ss : list hstmt) : list N := flat_map closure_ids_s ss.
+Definition surviving (c : list name * expr) : list N :=
+  let '(params, body) := c in closure_ids (fst (fst (lower_body Pinned (tmp_at 0) params body))).
